@@ -598,7 +598,7 @@ func main() {
 	for _, it := range items {
 		byID[it.ID] = it
 	}
-	var compared, rejected int64
+	var compared, rejected, nsLive int64
 	nodeTypes := map[string]bool{}
 	for bi, bo := range outs {
 		if bo.err != "" {
@@ -625,6 +625,9 @@ func main() {
 		for _, r := range bo.results {
 			compared++
 			c.Outcome(r.Interp.Kind + "/" + r.Compiled.Kind)
+			if strings.HasPrefix(r.ID, "ns") && strings.Contains(r.Interp.Out, ".tag") {
+				nsLive++
+			}
 			if r.Compiled != r.Interp {
 				clause := "stdout"
 				switch {
@@ -637,7 +640,20 @@ func main() {
 				}
 				cb, _ := json.Marshal(r.Compiled)
 				ib, _ := json.Marshal(r.Interp)
-				c.Fail(clause+":"+famOf(r.ID), "compiled-equals-interpreted", len(byID[r.ID].Src), byID[r.ID], fmt.Sprintf("program %s\ninterpreted: %s\ncompiled:    %s\nsource:\n%s", r.ID, ib, cb, byID[r.ID].Src))
+				detail := fmt.Sprintf("program %s\ninterpreted: %s\ncompiled:    %s\nsource:\n%s", r.ID, ib, cb, byID[r.ID].Src)
+				fams := []string{famOf(r.ID)}
+				if strings.HasPrefix(r.ID, "ns") {
+					// namespace-section family: keyed by the call form whose line diverges, not by the program
+					if ks := nsKinds(r.ID, r.Compiled.Out, r.Interp.Out); len(ks) > 0 {
+						fams = fams[:0]
+						for _, k := range ks {
+							fams = append(fams, "ns/"+k)
+						}
+					}
+				}
+				for _, fam := range fams {
+					c.Fail(clause+":"+fam, "compiled-equals-interpreted", len(byID[r.ID].Src), byID[r.ID], detail)
+				}
 			}
 			if len(byID[r.ID].Src) < 200 && strings.HasPrefix(r.ID, "F3") {
 				c.Sample(map[string]any{"id": r.ID, "source": byID[r.ID].Src, "interpreted": r.Interp, "compiled": r.Compiled})
@@ -671,6 +687,10 @@ func main() {
 	c.Assume("history layer: sources are four fixed files with three revisions each; mtimes are set explicitly (older / unchanged / equal to the generated file / one second newer); the generated go.mod is replaced by the harness's module; the scratch root inside EntryPath is relocated when a directory is built")
 	if c.Replay == "" && os.Getenv("C16_ONLY") != "progs" && os.Getenv("C16_ONLY") != "ns" && (histories < 100 || nsame < 10) {
 		c.HarnessError("vacuous: history layer ran %d histories over %d project states", histories, nsame)
+	}
+	c.Set("namespace_section_programs_with_output", nsLive)
+	if c.Replay == "" && os.Getenv("C16_ONLY") != "hist" && nsLive < 60 {
+		c.HarnessError("vacuous: only %d programs of the namespace-section family printed a resolved name when interpreted", nsLive)
 	}
 	if compared < 10 && c.Replay == "" && os.Getenv("C16_ONLY") != "hist" {
 		c.HarnessError("vacuous: only %d programs compared", compared)
